@@ -46,6 +46,90 @@ def gen_cases(tier, seed):
                 c = cl.H(cfgv).call(inv.callid, inv.args, inv.blobs, [(10, rep)]).case(5000, '%s / %s' % (inv.name, tag))
                 EXPECT[c.line()] = (tag == 'matching')
                 yield c
+    yield from gen_arg_sweep(tier, seed)
+
+
+def first_reply(inv, args, blobs, cfgv):
+    """the reference server's first matching positive response for these arguments (fixed random content)"""
+    from harness import respspec
+    class V:
+        pass
+    v = V()
+    v.__dict__.update(inv.__dict__)
+    v.args, v.blobs = list(args), list(blobs)
+    try:
+        out = respspec.gen(v, cl.H(cfgv).cfg, random.Random(4242), (1,))
+    except Exception:
+        return None
+    return out[0][0] if out else None
+
+
+def specific(inv, args):
+    """False when the varied request does not pin the field in which the two replies differ: 'all records' record numbers
+    (0xFF for snapshots, 0xF0.. groups for extended data by DTC), and the DTC of extended-data-by-DTC requests, which is
+    not among the echoed parameters the property lists"""
+    if inv.callid != 29:
+        return True
+    from harness.calls_ext import oi
+    sub = args[0]
+    changed = [i for i in range(len(args)) if args[i] != inv.args[i]]
+    if sub in (0x06, 0x10, 0x19):
+        if all(i in (8, 9) for i in changed):
+            return False
+        ext = oi(args, 12)
+        if ext is not None and ext >= 0xF0 and all(i in (12, 13) for i in changed):
+            return False
+    if sub in (0x03, 0x04, 0x05, 0x18):
+        snap = oi(args, 10)
+        if snap == 0xFF and all(i in (10, 11) for i in changed):
+            return False
+    return True
+
+
+def gen_arg_sweep(tier, seed):
+    """request arguments varied over their boundary values (argspace): the reference server's matching response to the
+    varied request must be accepted; its response to the TEMPLATE request, when it differs from the matching one in
+    bytes of the same positions, answers another request and must not be accepted"""
+    from harness import argspace, isospec
+    rnd = random.Random(seed + 7)
+    for inv in invocations():
+        if inv.callid in (1, 5, 17, 19, 23, 24):      # raw / composite / no echoed parameter in the response
+            continue
+        base_cfg = list(cl.DEFAULT_CFG)
+        for s, v in inv.cfg.items():
+            base_cfg[s] = v
+        r1 = first_reply(inv, inv.args, inv.blobs, base_cfg)
+        if r1 is None:
+            continue
+        seen = set()
+        for cfgo, args, blobs, tag in argspace.variants(inv, rnd, tier):
+            if tag in ('template', 'data string', 'path', 'edition') or len(blobs) and max(len(b) for b in blobs) > 300:
+                continue
+            cfgv = list(base_cfg)
+            for s, v in cfgo.items():
+                cfgv[s] = v
+            key = (tuple(args), tuple(blobs), tuple(cfgv))
+            if key in seen:
+                continue
+            seen.add(key)
+            h = cl.H(cfgv)
+            if isospec.expected(h.cfg, inv.callid, args, blobs)[0] != 'send':
+                continue
+            r2 = first_reply(inv, args, blobs, cfgv)
+            if r2 is None:
+                continue
+            if inv.callid == 29 and args[0] in (0x06, 0x10, 0x19) and args[12] == 1 and args[13] == 0:
+                continue       # extended data record number 0 is reserved: a response carrying it reads as padding
+            for unx in (1, 0):
+                cv = list(cfgv)
+                cv[cl.EX_UNX] = unx
+                c = cl.H(cv).call(inv.callid, args, blobs, [(10, r2)]).case(5000, '%s / varied arguments, matching reply' % inv.name)
+                EXPECT[c.line()] = True
+                yield c
+                if r1 != r2 and len(r1) == len(r2) and specific(inv, args):
+                    c = cl.H(cv).call(inv.callid, args, blobs, [(10, r1)]).case(5000, '%s / varied arguments, reply to the template request' % inv.name)
+                    EXPECT[c.line()] = False
+                    yield c
 
 
 def worker_init():
